@@ -336,6 +336,20 @@ func (s *Sim) oracleQuiescence() {
 			s.violate("C09", "c", "unsubscribed-in-use", "at quiescence %s but event.%s is not subscribed", why, name)
 		}
 	}
+	// C11.a: the connection subscription of every connection that is gone has
+	// been released
+	for _, c := range s.Clients {
+		if c.CIdx < 0 || (c.State == "open" && !c.eofSeen()) {
+			continue
+		}
+		s.stat("oracle.C11.a_quiescence", 1)
+		s.mu.Lock()
+		_, gone := s.connGone[c.CIdx]
+		s.mu.Unlock()
+		if !gone && !s.gwStopped {
+			s.violate("C11", "a", "conn-subscription-kept", "connection c%d (client %s) is closed and the gateway is quiescent, but conn.c%d is still subscribed", c.CIdx, c.Name, c.CIdx)
+		}
+	}
 	s.accessQuiescence()
 	s.queryQuiescence()
 	s.resetQuiescence()
@@ -988,6 +1002,8 @@ func (s *Sim) nonTrivial() bool {
 		return st["event_subscription_released"] > 0 && st["oracle.C09.e"] > 0
 	case "C10":
 		return st["fault.token_reset"] > 0 || st["fault.token_event"] >= 2
+	case "C11":
+		return st["fault.client_disconnect"] > 0 && st["oracle.C11.a_seam"] > 0
 	case "C12":
 		return st["oracle.C12.a_refetches"] > 0
 	case "C13":
